@@ -280,7 +280,11 @@ struct VirtualDrv {
     bool accept_small = false, small_after_payload = false; std::vector<uint8_t> small;
     ssize_t call(const void *buf, size_t n) {
         ++calls; c->step_budget();
-        if (accept_small && ((uintptr_t)buf < (uintptr_t)base || (uintptr_t)buf > (uintptr_t)base + total)) {
+        // real octets in front of the payload are told from the payload by address while the virtual range is small enough for that to be safe,
+        // and by position (everything that is not offered at 'base' before the payload began) when the range spans half the address space
+        const bool outside = (uintptr_t)buf < (uintptr_t)base || (uintptr_t)buf - (uintptr_t)base > total;
+        const bool is_small = accept_small && (total <= ((uint64_t)1 << 36) ? outside : (moved == 0 && buf != (const void *)base));
+        if (is_small) {
             if (moved) small_after_payload = true;
             int64_t s = ci < caps.size() ? caps[ci++] : INT64_MAX;
             ssize_t rv;
